@@ -288,7 +288,7 @@ def get_cauchy_point(
     delta_t_min = 0 if delta_t_min < 0 else delta_t_min
     t_old += delta_t_min
 
-    x_cp[t >= t_cur] = (x + t_old * d)[t >= t_cur]
+    x_cp[t >= t_cur] = np.clip(x + t_old * d, lb, ub)[t >= t_cur]
 
     c += delta_t_min * p
 
